@@ -4,31 +4,31 @@ From Anthem Require Import Base.Fresh Model.Limits.
 Open Scope string_scope.
 
 (* F3a: a numeral token panics iff its value is outside isize *)
-Theorem parse_isize_nonneg ds n : digits ds = Some n -> (forall r, ds <> String "-" r) ->
+Theorem parse_isize_nonneg ds n : unsigned_shape ds = true -> digits ds = Some n -> (forall r, ds <> String "-" r) ->
   parse_isize ds = if (Z.of_N n <=? isize_max)%Z then Value (Z.of_N n) else Panic.
 Proof.
-  intros H Hm. unfold parse_isize. destruct ds as [|c r]; [discriminate|].
+  intros S H Hm. unfold parse_isize. destruct ds as [|c r]; [discriminate|].
   destruct (Ascii.eqb_spec c "-"%char) as [->|N].
   - destruct (Hm r eq_refl).
-  - destruct c as [[] [] [] [] [] [] [] []]; try (rewrite H; reflexivity). destruct N; reflexivity.
+  - destruct c as [[] [] [] [] [] [] [] []]; try (rewrite S, H; reflexivity). destruct N; reflexivity.
 Qed.
-Theorem parse_isize_neg ds n : digits ds = Some n ->
+Theorem parse_isize_neg ds n : nonzero_led ds = true -> digits ds = Some n ->
   parse_isize (String "-" ds) = if (isize_min <=? - Z.of_N n)%Z then Value (- Z.of_N n)%Z else Panic.
-Proof. intros H. cbn. rewrite H. reflexivity. Qed.
+Proof. intros S H. cbn. rewrite S, H. reflexivity. Qed.
 
-Theorem parse_isize_panic_iff_neg ds n : digits ds = Some n ->
+Theorem parse_isize_panic_iff_neg ds n : nonzero_led ds = true -> digits ds = Some n ->
   (parse_isize (String "-" ds) = Panic <-> (- Z.of_N n < isize_min)%Z).
 Proof.
-  intros H. rewrite (parse_isize_neg _ _ H). destruct (Z.leb_spec isize_min (- Z.of_N n)); split; intros; try discriminate; try lia; reflexivity.
+  intros S H. rewrite (parse_isize_neg _ _ S H). destruct (Z.leb_spec isize_min (- Z.of_N n)); split; intros; try discriminate; try lia; reflexivity.
 Qed.
-Theorem parse_isize_panic_iff_nonneg ds n : digits ds = Some n -> (forall r, ds <> String "-" r) ->
+Theorem parse_isize_panic_iff_nonneg ds n : unsigned_shape ds = true -> digits ds = Some n -> (forall r, ds <> String "-" r) ->
   (parse_isize ds = Panic <-> (isize_max < Z.of_N n)%Z).
 Proof.
-  intros H Hm. rewrite (parse_isize_nonneg _ _ H Hm). destruct (Z.leb_spec (Z.of_N n) isize_max); split; intros; try discriminate; try lia; reflexivity.
+  intros S H Hm. rewrite (parse_isize_nonneg _ _ S H Hm). destruct (Z.leb_spec (Z.of_N n) isize_max); split; intros; try discriminate; try lia; reflexivity.
 Qed.
-Theorem parse_usize_panic_iff ds n : digits ds = Some n -> (parse_usize ds = Panic <-> (usize_max < n)%N).
+Theorem parse_usize_panic_iff ds n : unsigned_shape ds = true -> digits ds = Some n -> (parse_usize ds = Panic <-> (usize_max < n)%N).
 Proof.
-  intros H. unfold parse_usize. rewrite H. destruct (N.leb_spec n usize_max); split; intros; try discriminate; try lia; reflexivity.
+  intros S H. unfold parse_usize. rewrite S, H. destruct (N.leb_spec n usize_max); split; intros; try discriminate; try lia; reflexivity.
 Qed.
 
 (* F3b: the TPTP rendering of a numeral panics iff the numeral is isize::MIN *)
